@@ -1,5 +1,6 @@
 """Code related to formatting"""
 
+import ast
 import textwrap
 
 import black
@@ -44,7 +45,19 @@ def collapse_trailing_parentheses(source: str) -> str:
     Returns:
         str: _description_
     """
-    return compactify.format_code(source)
+    compact_source = compactify.format_code(source)
+    if compact_source == source:
+        return source
+
+    # Compactify works on lines and knows nothing about string literals: it may join or dedent
+    # lines that are inside a multiline string. Only accept results that leave the ast untouched.
+    try:
+        if ast.dump(ast.parse(compact_source)) != ast.dump(ast.parse(source)):
+            return source
+    except (SyntaxError, ValueError):
+        return source
+
+    return compact_source
 
 
 def _inspect_indentsize(line: str) -> int:
